@@ -253,6 +253,111 @@ func deadlinesMonotonic() []bool {
 	return out
 }
 
+// narrowCounters: integer fields of at most 32 bits, anywhere below a Reassembler, that count operations. A fresh
+// Reassembler delivers six events (sequence numbers 1000, 2000, ...: a field that follows the sequence number moves in
+// steps of a thousand, not of one), with a Maintain after each; another one is closed four times. A field whose value
+// grows by the same small step (1..4) from one round to the next is a counter of deliveries, calls or closes; if it is
+// narrower than 64 bits it wraps within the life of a daemon (2^32 events are a few hours of a busy host), and whatever
+// is decided from it is then decided wrongly. The model's state has no such component. Fields are named by their
+// position (indices from the Reassembler struct down) and kind, not by name.
+func narrowCounters() []string {
+	type snap map[string]int64
+	take := func(root reflect.Value) snap {
+		out := snap{}
+		seen := map[uintptr]bool{}
+		var walk func(v reflect.Value, path string, depth int)
+		walk = func(v reflect.Value, path string, depth int) {
+			if depth > 6 || !v.IsValid() {
+				return
+			}
+			switch v.Kind() {
+			case reflect.Int8, reflect.Int16, reflect.Int32:
+				out[path+":"+v.Kind().String()] = v.Int()
+			case reflect.Uint8, reflect.Uint16, reflect.Uint32:
+				out[path+":"+v.Kind().String()] = int64(v.Uint())
+			case reflect.Ptr:
+				if v.IsNil() || seen[v.Pointer()] {
+					return
+				}
+				seen[v.Pointer()] = true
+				walk(v.Elem(), path, depth+1)
+			case reflect.Interface:
+				if !v.IsNil() {
+					walk(v.Elem(), path, depth+1)
+				}
+			case reflect.Struct:
+				if v.Type().PkgPath() == "sync" || v.Type().PkgPath() == "time" {
+					return // a mutex's state word, a Time's fields: not the library's counters
+				}
+				for i := 0; i < v.NumField(); i++ {
+					walk(v.Field(i), fmt.Sprintf("%s.%d", path, i), depth+1)
+				}
+			}
+		}
+		walk(root, "r", 0)
+		return out
+	}
+	counters := func(snaps []snap) []string {
+		var out []string
+		for p, v0 := range snaps[0] {
+			step := int64(0)
+			ok := true
+			prev := v0
+			for _, s := range snaps[1:] {
+				v, has := s[p]
+				if !has {
+					ok = false
+					break
+				}
+				d := v - prev
+				if d < 1 || d > 4 || (step != 0 && d != step) {
+					ok = false
+					break
+				}
+				step, prev = d, v
+			}
+			if ok && len(snaps) > 2 {
+				out = append(out, p)
+			}
+		}
+		return out
+	}
+	var found []string
+	{
+		r, err := libaudit.NewReassembler(5, time.Hour, &lifeStream{})
+		if err != nil {
+			fatal("NewReassembler: %v", err)
+		}
+		snaps := []snap{take(reflect.ValueOf(r))}
+		for k := 1; k <= 6; k++ {
+			r.PushMessage(&auparse.AuditMessage{RecordType: 1300, Sequence: uint32(1000 * k)})
+			r.PushMessage(&auparse.AuditMessage{RecordType: 1320, Sequence: uint32(1000 * k)})
+			r.Maintain()
+			snaps = append(snaps, take(reflect.ValueOf(r)))
+		}
+		r.Close()
+		for _, c := range counters(snaps) {
+			found = append(found, "per delivery or call: "+c)
+		}
+	}
+	{
+		r, err := libaudit.NewReassembler(5, time.Hour, &lifeStream{})
+		if err != nil {
+			fatal("NewReassembler: %v", err)
+		}
+		snaps := []snap{take(reflect.ValueOf(r))}
+		for k := 1; k <= 4; k++ {
+			r.Close()
+			snaps = append(snaps, take(reflect.ValueOf(r)))
+		}
+		for _, c := range counters(snaps) {
+			found = append(found, "per Close: "+c)
+		}
+	}
+	sort.Strings(found)
+	return found
+}
+
 func genReasmFactsImpl() {
 	var life [65536]int
 	for t := 0; t < 65536; t++ {
@@ -292,6 +397,15 @@ func genReasmFactsImpl() {
 			b.WriteString(", ")
 		}
 		fmt.Fprintf(&b, "%v", m)
+	}
+	b.WriteString("]\n")
+	b.WriteString("/-- integer fields of at most 32 bits below a Reassembler that grow by a constant small step per delivery, call or Close -/\n")
+	b.WriteString("def narrowCounters : List String := [")
+	for i, s := range narrowCounters() {
+		if i > 0 {
+			b.WriteString(", ")
+		}
+		fmt.Fprintf(&b, "%q", s)
 	}
 	b.WriteString("]\n")
 	b.WriteString("/-- calls in reassembler.go that strip the monotonic reading from a time.Time or turn it into a number (function: method) -/\n")
